@@ -245,6 +245,8 @@ type Driver struct {
 	Alt []string
 	// Post runs in the parent after merging; it may report findings or machinery errors.
 	Post func(c *Ctx)
+	// ReplayIn names the flavour whose binary must execute replays (e.g. "sched").
+	ReplayIn string
 	// Crash turns the breadcrumb of a worker that died into a finding (nil: machinery error).
 	Crash func(crumb []byte, stderrTail string) *Finding
 }
@@ -284,12 +286,33 @@ func Main(flavour string) {
 	}
 	seed := envInt("VERIF_SEED", 1)
 	if len(os.Args) >= 4 && os.Args[2] == "-replay" {
+		if d.ReplayIn != "" && d.ReplayIn != flavour {
+			bin := os.Getenv("VERIF_BIN_" + strings.ToUpper(d.ReplayIn))
+			cmd := exec.Command(bin, os.Args[1:]...)
+			cmd.Stdout, cmd.Stderr = os.Stdout, os.Stderr
+			if err := cmd.Run(); err != nil {
+				if ee, ok := err.(*exec.ExitError); ok {
+					os.Exit(ee.ExitCode())
+				}
+				fmt.Fprintln(os.Stderr, err)
+				os.Exit(2)
+			}
+			os.Exit(0)
+		}
 		os.Exit(replayMain(d, tier, seed, os.Args[3]))
 	}
 	if sh := os.Getenv("VERIF_SHARD"); sh != "" {
 		var i, n int
 		fmt.Sscanf(sh, "%d/%d", &i, &n)
 		c := NewCtx(prop, tier, seed, i, n)
+		if os.Getenv("VERIF_DEADLINE_S") == "" {
+			// internal soft cap for capped searches: quick 4 min, thorough 40 min per worker
+			if tier == "thorough" {
+				c.Deadline = time.Now().Add(40 * time.Minute)
+			} else {
+				c.Deadline = time.Now().Add(4 * time.Minute)
+			}
+		}
 		if s := envInt("VERIF_DEADLINE_S", 0); s > 0 {
 			c.Deadline = time.Now().Add(time.Duration(s) * time.Second)
 		}
